@@ -353,14 +353,13 @@ impl G {
         let trees = parts.iter().map(|(c, p, d)| { let mut v = vec![l(format!("col:{c}"))]; if let Some(p) = p { v.push(l(format!("prefix:{p}"))); } match d { Some(true) => v.push(l("DESC")), Some(false) => v.push(l("ASC")), None => {} } n("keypart", v) }).collect();
         (parts, trees)
     }
-    fn index_stmt(&self, name: Option<&str>, parts: &[(String, Option<u32>, Option<bool>)]) -> IndexCreateStatement {
-        let mut ix = Index::create();
+    fn index_stmt(&self, name: Option<&str>, parts: &[(String, Option<u32>, Option<bool>)]) -> IndexCreateStatement { let mut ix = Index::create(); self.fill_index(&mut ix, name, parts); ix }
+    fn fill_index(&self, ix: &mut IndexCreateStatement, name: Option<&str>, parts: &[(String, Option<u32>, Option<bool>)]) {
         if let Some(nm) = name { ix.name(nm); }
         for (c, p, d) in parts {
             let o = d.map(|x| if x { IndexOrder::Desc } else { IndexOrder::Asc });
             match (p, o) { (Some(p), Some(o)) => { ix.col((a(c), *p, o)); } (Some(p), None) => { ix.col((a(c), *p)); } (None, Some(o)) => { ix.col((a(c), o)); } (None, None) => { ix.col(a(c)); } }
         }
-        ix
     }
     fn fk(&mut self, from: &str, cols: &[Col], with_name: bool) -> (ForeignKeyCreateStatement, Vec<T>, Option<String>) {
         let k = 1 + self.r.below(cols.len().min(2) as u64) as usize;
@@ -400,11 +399,14 @@ fn gen_case(g: &mut G) -> Case {
             v.push(l(format!("table:{tname}")));
             let mut ok = true;
             for c in &cols { st.col(g.build_col(c, true)); match g.col_tree(c, true) { Some(t) => v.push(t), None => ok = false } }
-            // table-level keys
+            // table-level keys; half of the tables declare them through ONE builder object, refilled after each call (the calls
+            // take the name and the columns out of it) — what a fresh builder per key gives
+            let reuse = g.r.chance(1, 2);
+            let mut shared = Index::create();
             if g.r.chance(1, 3) {
                 let (parts, trees) = g.keyparts(&cols, false);
                 let named = g.r.chance(1, 2); let nm = if named { Some(g.name("pk")) } else { None };
-                st.primary_key(&mut g.index_stmt(nm.as_deref(), &parts));
+                if reuse { g.fill_index(&mut shared, nm.as_deref(), &parts); st.primary_key(&mut shared); } else { st.primary_key(&mut g.index_stmt(nm.as_deref(), &parts)); }
                 let mut k = Vec::new();
                 if b == B::Mysql { k.push(l("kind:PRIMARY")); if let Some(x) = &nm { k.push(l(format!("name:{x}"))); } } else { if let Some(x) = &nm { k.push(l(format!("constraint:{x}"))); } k.insert(0, l("kind:PRIMARY KEY")); }
                 k.push(n("keyparts", trees)); v.push(n("key", k));
@@ -412,8 +414,10 @@ fn gen_case(g: &mut G) -> Case {
             if g.r.chance(1, 3) {
                 let (parts, trees) = g.keyparts(&cols, true);
                 let nm = g.name("uq");
-                let mut ix = g.index_stmt(Some(&nm), &parts); ix.unique();
-                st.index(&mut ix);
+                // a partial-index predicate on a key declared inside CREATE TABLE is not written (table constraints have no WHERE)
+                let partial = g.r.chance(1, 4);
+                if reuse { g.fill_index(&mut shared, Some(&nm), &parts); shared.unique(); if partial { shared.and_where(Expr::col(a(&cols[0].name)).is_not_null()); } st.index(&mut shared); }
+                else { let mut ix = g.index_stmt(Some(&nm), &parts); ix.unique(); if partial { ix.and_where(Expr::col(a(&cols[0].name)).is_not_null()); } st.index(&mut ix); }
                 let k = if b == B::Mysql { vec![l("kind:UNIQUE"), l(format!("name:{nm}")), n("keyparts", trees)] } else { vec![l("kind:UNIQUE"), l(format!("constraint:{nm}")), n("keyparts", trees)] };
                 v.push(n("key", k));
             }
